@@ -333,6 +333,8 @@ def csv_sep_case(rng, tier):
     """setSeparator / setDecimal before writing: ';' with '.', ';' with ',' (the pair the reader assumes), tab with '.'"""
     sep, dec = rng.choice([(59, 46), (59, 46), (59, 44), (9, 46)])
     names, cells, _ = gen_table(rng, tier, False)
+    while len(names) < 2:       # one-column files with a non-default separator: outside (outside_findings.txt), nothing to sniff
+        names, cells, _ = gen_table(rng, tier, False)
     n = len(names)
     fixed = []
     for c in cells:
